@@ -131,6 +131,9 @@ def _literal_seq(node):
     return None
 
 
+_CONST_CTORS = {"re.compile"}
+
+
 def _pure(e, lambdas: bool = False) -> bool:
     """an expression that can be copied to several places: no calls except on literals/names methods are avoided altogether.
     lambdas=True: a `lambda` EXPRESSION counts as pure (evaluating it runs nothing; its body is not looked into)"""
@@ -139,6 +142,8 @@ def _pure(e, lambdas: bool = False) -> bool:
         n = todo.pop()
         if lambdas and isinstance(n, ast.Lambda):
             continue
+        if isinstance(n, ast.Call) and ast.unparse(n.func) in _CONST_CTORS and not n.keywords and all(isinstance(a, ast.Constant) for a in n.args):
+            continue          # an immutable value built from constants (a compiled pattern): copying the expression copies the value
         if isinstance(n, (ast.Call, ast.Await, ast.Yield, ast.YieldFrom, ast.NamedExpr, ast.Lambda, ast.ListComp, ast.SetComp, ast.DictComp, ast.GeneratorExp)):
             return False
         todo.extend(ast.iter_child_nodes(n))
